@@ -13,6 +13,7 @@ CHECKS = {
     'C15': ('vlib.chk_rat', 'C15'),
     'C16': ('vlib.chk_lit', 'C16'),
     'C18': ('vlib.chk_crash', 'C18'),
+    'C19': ('vlib.chk_reject', 'C19'),
     'C20': ('vlib.chk_pipe', 'C20'),
     'C21': ('vlib.chk_scope', 'C21'),
     'C22': ('vlib.chk_tsolver', 'C22'),
